@@ -28,7 +28,9 @@ type specGen struct {
 
 var tameNames = []string{"Pet", "Owner", "Order", "Item", "Address", "Tag", "Error", "Page", "User", "Thing", "Widget", "Gadget", "Account", "Invoice", "LineItem", "Shipment"}
 var tameProps = []string{"id", "name", "tag", "count", "created_at", "owner", "items", "kind", "status", "value", "note", "email", "price", "active", "parent"}
-var advNames = []string{"type", "func", "string", "error", "1st", "2Fast", "my-name", "my_name", "my.name", "MyName", "Résumé", "日本x", "$ref", "a b", "x+y", "nil", "map", "JSON", "url", "URL", "Id", "ID", "_private", "range", "len", "Ünïcode", "x²"}
+var advNames = []string{"type", "func", "string", "error", "1st", "2Fast", "my-name", "my_name", "my.name", "MyName", "Résumé", "日本x", "$ref", "a b", "x+y", "nil", "map", "JSON", "url", "URL", "Id", "ID", "_private", "range", "len", "Ünïcode", "x²",
+	// spellings that are not keywords themselves but whose derived variable name is one
+	"Type", "TYPE", "range_", "_func", "Select", "go-", "Var", "DEFAULT"}
 
 func (g *specGen) count(k string) { g.stats[k]++ }
 
